@@ -145,3 +145,19 @@ func VerifCallArgs(n int) {
 		verifapi.Assert(err == nil, "C08-args-fit-rejected")
 	}
 }
+
+// VerifArityAccepted declares a configured method with the given parameters and calls it in
+// the check round with npos Integer positionals and the given keywords (Integer values).
+func VerifArityAccepted(decl []base.T, npos int, keywords []string) bool {
+	methodT := builtin.VerifDefineInstance("VR", "m", decl, *base.MakeNil())
+	methodT.SetBeforeEvaluateCode("VR.m")
+	var args []*base.T
+	for i := 0; i < npos; i++ {
+		args = append(args, base.MakeAnyInt())
+	}
+	for _, k := range keywords {
+		args = append(args, base.MakeKeyValue(k, base.MakeAnyInt()))
+	}
+	m := &MethodEvaluator{method: "m", ctx: context.NewContext("", "", "check"), evaluatedObjectT: base.MakeObject("VR")}
+	return checkAndPropagateArgs(m, "VR", methodT, args) == nil
+}
